@@ -1,1 +1,71 @@
-(* Props/C14.v -- stub, to be filled in *)
+(* Props/C14.v -- property theorems only: Theorem / exact lemma / Check (pins the statement) / Print Assumptions.
+   All statements are about the model coq/Model/CFun.v over R x R (complex numbers as pairs of reals); the model is
+   tied to src/complex/*.rs by the Interval certificates of the C14 check.  czero = (0,0), cone = (1,0), ci = (0,1).
+   libm accuracy / f64 rounding are not the subject of these theorems (DESIGN section 10). *)
+From Coq Require Import Reals Lra.
+From OV Require Import Model.CFun Proofs.CFun.
+Local Open Scope R_scope.
+
+(* ---- modulus and argument: z = |z| (cos arg z, sin arg z), arg z in (-PI, PI] ---- *)
+Theorem polar_decomp : forall z : C, z <> czero ->
+  z = cmul_r (cos (arg z), sin (arg z)) (cabs z) /\ - PI < arg z <= PI.
+Proof. intros z Hz. exact (conj (polar_form z Hz) (arg_range z)). Qed.
+Check polar_decomp : forall z : C, z <> czero ->
+  z = cmul_r (cos (arg z), sin (arg z)) (cabs z) /\ - PI < arg z <= PI.
+Print Assumptions polar_decomp.
+Example polar_decomp_nonvacuous : (-3, 4) <> czero.
+Proof. intros H; inversion H; lra. Qed.
+
+(* ---- exp / ln / sqrt: inverse pairs and principal branches ---- *)
+Theorem exp_ln : forall z : C, z <> czero -> cexp (cln z) = z.
+Proof. exact exp_ln_lemma. Qed.
+Check exp_ln : forall z : C, z <> czero -> cexp (cln z) = z.
+Print Assumptions exp_ln.
+Example exp_ln_nonvacuous : (-1, 0) <> czero.
+Proof. intros H; inversion H; lra. Qed.
+
+Theorem sqrt_sqr : forall z : C, cmul (csqrt z) (csqrt z) = z.
+Proof. exact sqrt_sqr_lemma. Qed.
+Check sqrt_sqr : forall z : C, cmul (csqrt z) (csqrt z) = z.
+Print Assumptions sqrt_sqr.
+
+Theorem re_sqrt_nonneg : forall z : C, 0 <= re (csqrt z).
+Proof. exact re_sqrt_nonneg_lemma. Qed.
+Check re_sqrt_nonneg : forall z : C, 0 <= re (csqrt z).
+Print Assumptions re_sqrt_nonneg.
+
+(* holds for every z (for z = 0 the model's arg is 0), so no hypothesis z <> 0 is needed *)
+Theorem im_ln_range : forall z : C, - PI < im (cln z) <= PI.
+Proof. exact im_ln_range_lemma. Qed.
+Check im_ln_range : forall z : C, - PI < im (cln z) <= PI.
+Print Assumptions im_ln_range.
+
+(* ---- general powers ---- *)
+Theorem pow_is_exp_ln : forall z w : C, z <> czero -> cpow z w = cexp (cmul w (cln z)).
+Proof. exact pow_is_exp_ln_lemma. Qed.
+Check pow_is_exp_ln : forall z w : C, z <> czero -> cpow z w = cexp (cmul w (cln z)).
+Print Assumptions pow_is_exp_ln.
+Example pow_is_exp_ln_nonvacuous : (0, -2) <> czero.
+Proof. intros H; inversion H; lra. Qed.
+
+Theorem powf_is_pow : forall (z : C) (x : R), cpowf z x = cpow z (x, 0).
+Proof. exact powf_is_pow_lemma. Qed.
+Check powf_is_pow : forall (z : C) (x : R), cpowf z x = cpow z (x, 0).
+Print Assumptions powf_is_pow.
+
+(* ---- polar form round trips, both directions ---- *)
+Theorem polar_roundtrip : forall z : C, z <> czero -> cpolar (cabs z) (arg z) = z.
+Proof. exact polar_roundtrip_lemma. Qed.
+Check polar_roundtrip : forall z : C, z <> czero -> cpolar (cabs z) (arg z) = z.
+Print Assumptions polar_roundtrip.
+Example polar_roundtrip_nonvacuous : (0, -1) <> czero.
+Proof. intros H; inversion H; lra. Qed.
+
+Theorem polar_roundtrip_inv : forall r t : R, 0 < r -> - PI < t <= PI ->
+  cabs (cpolar r t) = r /\ arg (cpolar r t) = t.
+Proof. intros r t Hr Ht. exact (conj (cabs_polar r t (Rlt_le _ _ Hr)) (arg_polar r t Hr Ht)). Qed.
+Check polar_roundtrip_inv : forall r t : R, 0 < r -> - PI < t <= PI ->
+  cabs (cpolar r t) = r /\ arg (cpolar r t) = t.
+Print Assumptions polar_roundtrip_inv.
+Example polar_roundtrip_inv_nonvacuous : 0 < 2 /\ - PI < PI <= PI.
+Proof. pose proof PI_RGT_0. lra. Qed.
